@@ -84,6 +84,28 @@ body += "### Summary (generated)\n\n* properties claimed: %d of %d (not_applicab
     len(m["checks"]), len(props), len(m["not_applicable"]), _nthm,
     sum(1 for e in kf if e.get("status") == "fixed"), sum(1 for e in kf if e.get("status") == "open"),
     len(_seeds), _first, _later - 0, len(_open), ", ".join(sorted(os.path.basename(os.path.dirname(f)) for f in glob.glob(os.path.join(ROOT, "seeded", "*", "meta.json")) if str(json.load(open(f)).get("caught_by", "-")) in ("-", "", "?"))) or "none")
+# size of the development as built (the tree in section 2 is the plan; this is what exists)
+def _loc(pattern):
+    n = l = 0
+    for f_ in glob.glob(pattern, recursive=True):
+        try:
+            l += sum(1 for _ in open(f_, errors="replace"))
+            n += 1
+        except Exception:
+            pass
+    return n, l
+_areas = []
+for d_ in sorted(glob.glob(os.path.join(ROOT, "coq", "theories", "*"))):
+    if os.path.isdir(d_):
+        n_, l_ = _loc(os.path.join(d_, "*.v"))
+        if n_:
+            _areas.append("%s %d/%d" % (os.path.basename(d_), n_, l_))
+_cn, _cl = _loc(os.path.join(ROOT, "coq", "theories", "**", "*.v"))
+_gn, _gl = _loc(os.path.join(ROOT, "harness", "cmd", "**", "*.go"))
+_pn, _pl = _loc(os.path.join(ROOT, "gen", "*.py"))
+_on, _ol = _loc(os.path.join(ROOT, "ocaml", "*.ml"))
+body += "* the development as built: Coq %d files / %d lines (per area, files/lines: %s; `Gen/` is regenerated from /repo on every run); Go harness `harness/cmd/{lalprobe,lalrace,lockgraph}` %d files / %d lines; python generators and oracles `gen/` %d files / %d lines; OCaml drivers %d files / %d lines; framework `lib/vf.py`, `check`, `tools/`\n\n" % (
+    _cn, _cl, ", ".join(_areas), _gn, _gl, _pn, _pl, _on, _ol)
 # table of every finding (from known_findings.d) and of every seeded change (from seeded/*/meta.json)
 body += "### Findings on the pinned tree (supersedes the plan in section 8)\n\n| id | property | status | lal commit | what |\n|---|---|---|---|---|\n"
 for e in sorted(kf, key=lambda e: (e.get("property", ""), e.get("finding_id", ""))):
